@@ -295,7 +295,7 @@ func TestVerifC10(t *testing.T) {
 		}
 	}
 	// classes over all code points: membership of every rune against an independent reading
-	cls := vNew("C10/classes-all-code-points", "seeded character classes (ranges, negation, subtraction, \\d \\w \\s, \\p{Lu} \\p{L} \\p{Nd} \\P{..}, case folding), membership checked for every code point 0..0x10FFFF (runes) or 0..255 (bytes)", false,
+	cls := vNew("C10/classes-all-code-points", "seeded character classes (ranges, negation, subtraction, \\d \\w \\s, \\p{Lu} \\p{L} \\p{Nd} \\P{..}, a leading literal dash, single-character escapes, case folding) and every class escape standing alone outside brackets in every mode, membership checked for every code point 0..0x10FFFF (runes) or 0..255 (bytes)", false,
 		"parser.parseClass", "newCharset", "charset.invert", "charset.subtract", "charset.fold", "appendNamedSet")
 	type atom struct {
 		text string
@@ -313,6 +313,10 @@ func TestVerifC10(t *testing.T) {
 		{`\000-\010`, func(c rune) bool { return c >= 0 && c <= 8 }},
 		{`k`, func(c rune) bool { return c == 'k' }},
 		{`s`, func(c rune) bool { return c == 's' }},
+		// single-character escapes (after a leading literal dash: seeded change C10-r13m1)
+		{`\n`, func(c rune) bool { return c == '\n' }},
+		{`\.`, func(c rune) bool { return c == '.' }},
+		{`\101`, func(c rune) bool { return c == 'A' }},
 	}
 	uni := []atom{
 		{`\p{Lu}`, func(c rune) bool { return unicode.Is(unicode.Lu, c) }},
@@ -329,8 +333,36 @@ func TestVerifC10(t *testing.T) {
 		{`\U00010000-\U0001ffff`, func(c rune) bool { return c >= 0x10000 && c <= 0x1ffff }},
 	}
 	nc := c09count(250, 5000)
-	for i := 0; i < nc; i++ {
+	// after the seeded classes: every escape that can stand alone, outside brackets, in every mode
+	type directedClass struct {
+		a atom
+		m lgMode
+	}
+	var directed []directedClass
+	// Case folding of a standalone escape is only checked where its meaning is not in question: a
+	// positive \p{X} is the fold closure of X (what [\p{X}] denotes as well). For \d \w \s and for
+	// the complemented forms the standalone and the bracketed spelling differ on the unchanged tree
+	// ((?i)\w does not contain U+017F, (?i)[\w] does; (?i)\P{L} is the complement of the closure,
+	// (?i)[\P{L}] the closure of the complement) and the documentation does not say which is meant:
+	// those are checked without folding only.
+	for _, fold := range []bool{false, true} {
+		for _, a := range atoms[2:5] {
+			if !fold {
+				directed = append(directed, directedClass{a, lgMode{}}, directedClass{a, lgMode{bytes: true}})
+			}
+		}
+		for _, a := range uni {
+			positive := a.text[1] == 'p' && !strings.Contains(a.text, "^")
+			if (a.text[1] == 'p' || a.text[1] == 'P') && (positive || !fold) {
+				directed = append(directed, directedClass{a, lgMode{fold: fold}})
+			}
+		}
+	}
+	for i := 0; i < nc+len(directed); i++ {
 		m := lgMode{fold: i%3 == 0, bytes: i%2 == 1}
+		if i >= nc {
+			m = directed[i-nc].m
+		}
 		pool := atoms
 		if !m.bytes {
 			pool = append(append([]atom(nil), atoms...), uni...)
@@ -345,14 +377,25 @@ func TestVerifC10(t *testing.T) {
 			a := pool[r.Intn(len(pool))]
 			sub = &a
 		}
-		if sub != nil && len(parts[len(parts)-1].text) == 1 {
+		if i >= nc {
+			parts, neg, sub = []atom{directed[i-nc].a}, false, nil
+		}
+		if last := parts[len(parts)-1].text; sub != nil && (len(last) == 1 || last == `\n` || last == `\.` || last == `\101`) {
 			// "k-[x]" would read as the range from k to '[': keep a range in front of a subtraction
 			parts = append(parts, atoms[0])
+		}
+		// a literal dash right after the opening bracket (or the ^) in a quarter of the classes
+		dashFirst := r.Intn(4) == 0 && i < nc
+		if t := parts[0].text; dashFirst && len(t) >= 2 && t[0] == '\\' && strings.ContainsRune("pPdws", rune(t[1])) {
+			dashFirst = false // "-\d" inside a class subtracts \d, like "-[0-9]"
 		}
 		var sb strings.Builder
 		sb.WriteString("[")
 		if neg {
 			sb.WriteString("^")
+		}
+		if dashFirst {
+			sb.WriteString("-")
 		}
 		for _, p := range parts {
 			sb.WriteString(p.text)
@@ -362,6 +405,14 @@ func TestVerifC10(t *testing.T) {
 		}
 		sb.WriteString("]")
 		pat := sb.String()
+		if dashFirst {
+			parts = append(parts, atom{"-", func(c rune) bool { return c == '-' }})
+		}
+		// \p{..}, \P{..}, \d, \w, \s also stand alone, outside brackets: a separate path in the parser
+		// (seeded change C10-r13m2 broke the case folding of a standalone \p{Script} only)
+		if t := parts[0].text; len(parts) == 1 && sub == nil && !neg && !dashFirst && len(t) >= 2 && t[0] == '\\' && strings.ContainsRune("pPdws", rune(t[1])) && (!m.fold || t[1] == 'p' && !strings.Contains(t, "^")) && (i >= nc || r.Intn(2) == 0) {
+			pat = t
+		}
 		desc := fmt.Sprintf("fold=%v bytes=%v /%s/", m.fold, m.bytes, pat)
 		var re *Regexp
 		var err error
@@ -417,7 +468,9 @@ func TestVerifC10(t *testing.T) {
 				break
 			}
 		}
-		for j := 0; j+3 < len(cs); j += 2 {
+		// bracket classes go through newCharset, which normalizes; a standalone escape keeps its table
+		// as written (\s lists its six runes one by one), which denotes the same set
+		for j := 0; pat[0] == '[' && j+3 < len(cs); j += 2 {
 			if cs[j] > cs[j+1] || cs[j+1]+1 >= cs[j+2] {
 				cls.Failf(desc, "parsed set is not a sorted list of non-adjacent ranges: %v", []rune(cs))
 				break
